@@ -135,8 +135,9 @@ theorem intBody_plain (d : Str) (hu : '_' ∉ d) :
     · simp [hx]
     · cases ht : t.all Char.isDigit <;> simp [hx, ht]
 
-/-- no whitespace character and no underscore -/
-def PlainText (c : Str) : Prop := ∀ ch ∈ c, Py.isSpace ch = false ∧ ch ≠ '_'
+/-- no whitespace character, no underscore, ASCII only (CPython's `int()` also accepts the decimal
+digits of other scripts, which the views model's `CC.pyInt` does not) -/
+def PlainText (c : Str) : Prop := ∀ ch ∈ c, Py.isSpace ch = false ∧ ch ≠ '_' ∧ ch.toNat < 128
 
 theorem signSplit2_other (x : Char) (d : Str) (h1 : x ≠ '-') (h2 : x ≠ '+') :
     Http.signSplit2 (x :: d) = (false, x :: d) := by
@@ -157,17 +158,17 @@ theorem ccPyInt_other (x : Char) (d : Str) (h1 : x ≠ '-') (h2 : x ≠ '+') :
 /-- The two hand models of `int(text)` - C06's `Http.pyInt` (what the translation calls: strips
 whitespace, allows `_` between digits) and the views model's `CC.pyInt` (what `Resp.cleanStatus` calls:
 sign and ASCII digits only) - agree on every text that contains no whitespace character and no
-underscore: same value, or ValueError on both sides. -/
+underscore and is ASCII: same value, or ValueError on both sides. -/
 theorem pyInt_agree (c : Str) (h : PlainText c) : Http.pyInt c = optInt (Views.CC.pyInt c) := by
   have ht : Http.Tight c :=
     ⟨fun a ha => (h a (List.mem_of_head? ha)).1, fun a ha => (h a (List.mem_of_getLast? ha)).1⟩
   unfold Http.pyInt
-  rw [Http.intStrip_tight ht]
+  rw [Http.toAsciiDecimal_ascii c (fun a ha => (h a ha).2.2), Http.intStrip_tight ht]
   match c, h with
   | [], _ => rfl
   | x :: d, h =>
-    have hd : '_' ∉ d := fun e => (h '_' (by simp [e])).2 rfl
-    have hx : x ≠ '_' := (h x (by simp)).2
+    have hd : '_' ∉ d := fun e => (h '_' (by simp [e])).2.1 rfl
+    have hx : x ≠ '_' := (h x (by simp)).2.1
     by_cases h1 : x = '-'
     · subst h1
       simp only [Http.signSplit2, intBody_plain d hd, Views.CC.pyInt, Views.CC.digitsVal]
@@ -188,9 +189,9 @@ theorem plain_of_digitsVal (d : Str) (n : Nat) (h : Views.CC.digitsVal d = some 
   · simp only [Bool.or_eq_true, Bool.not_eq_true', not_or, Bool.not_eq_false] at hc
     intro ch hch
     have hdg : ch.isDigit = true := List.all_eq_true.mp hc.2 ch hch
-    exact ⟨Http.isDigit_not_space hdg, Http.isDigit_ne hdg (by decide)⟩
+    exact ⟨Http.isDigit_not_space hdg, Http.isDigit_ne hdg (by decide), Http.isDigit_lt128 hdg⟩
 
-theorem plainText_cons (x : Char) (d : Str) (hx : Py.isSpace x = false ∧ x ≠ '_') (hd : PlainText d) :
+theorem plainText_cons (x : Char) (d : Str) (hx : Py.isSpace x = false ∧ x ≠ '_' ∧ x.toNat < 128) (hd : PlainText d) :
     PlainText (x :: d) := by
   intro ch hch
   rcases List.mem_cons.mp hch with rfl | h
